@@ -5,7 +5,6 @@ import (
 	"fmt"
 	"os"
 	"path/filepath"
-	"runtime"
 	"sort"
 	"strings"
 	"time"
@@ -185,7 +184,7 @@ func cmdCheck(args []string) int {
 			if tier == "thorough" {
 				xs = h.XSolvers
 			}
-			st := vm.Explore(vm.Config{Machine: ld.m, Entry: entry, Harness: h.Name, Workers: runtime.NumCPU(), Params: params, KnownOpen: kf.openMap(), Samples: 3, OwnPrefixes: spec.own(), XSolvers: xs})
+			st := vm.Explore(vm.Config{Machine: ld.m, Entry: entry, Harness: h.Name, Workers: workerCount(), Params: params, KnownOpen: kf.openMap(), Samples: 3, OwnPrefixes: spec.own(), XSolvers: xs})
 			fmt.Printf("[%s %s] ", prop, h.Name)
 			printStats(st, ld.loadS)
 			he := harnessEvidence{Harness: h.Name, Bounds: params, Decisions: st.Decisions, Covers: st.Covers, Exhaustive: st.Exhausted, WallS: st.Wall.Seconds(), Desc: h.Desc,
@@ -383,7 +382,7 @@ func xval(ld *loaded, entry *ssa.Function, h *harnessSpec, params map[string]int
 			continue
 		}
 		nat0 := strings.Join(nr.trace, "\n") + "\n#" + strings.Join(dedupSorted(nr.fails), ",")
-		st := vm.Explore(vm.Config{Machine: ld.m, Entry: entry, Harness: h.Name, Workers: runtime.NumCPU(), Params: params, KnownOpen: map[string][]string{}, Concrete: nr.inputs, CollectObs: true, StopOnObs: nat0, AllFailuresKnown: true})
+		st := vm.Explore(vm.Config{Machine: ld.m, Entry: entry, Harness: h.Name, Workers: workerCount(), Params: params, KnownOpen: map[string][]string{}, Concrete: nr.inputs, CollectObs: true, StopOnObs: nat0, AllFailuresKnown: true})
 		var nat string
 		match := false
 		// the native side free-runs the container's own goroutines (watchers): a
